@@ -14,6 +14,7 @@ returns the inner future's poll unchanged or Ready(Ok(the stored response)), the
 table is {no sender ↦ InternalServerError, contains ↦ Ok, else ↦ NotFound} over a set collected from
 the whole constructor argument, and the layer hands the service its own authorizer clone.
 One layer out: clones keep the same authorizer / list, poll_ready only delegates, PeerId equality/hash are derived.
+Generated servers stack a per-method layer on those already installed; the network attaches Connection::peer_id() to every decoded request before dispatch (C01.9 re-evaluated).
 """
 TRUSTED = ["std HashSet::contains / FromIterator", "anemo Request::peer_id returns the authenticated sender extension (C01)"]
 NOT_DECIDED = ["the logic of user-supplied authorizers"]
@@ -229,3 +230,15 @@ def run(cx):
             check_fieldwise_clone(ob, prog, ty)
         check_poll_ready_delegates(ob, prog, "anemo_tower::auth::service::RequireAuthorization")
         check_peer_id_identity_derived(ob, prog)
+        check_generated_layer_stacking(ob, prog)          # (a per-method layer installed on a generated server stays installed)
+
+    with cx.ob("C20.6", "R-MUSTPASS", "one layer out: the sender the authorizer looks up is there and authentic for every request that arrives over a connection - the network attaches Connection::peer_id() to the decoded request before it dispatches it (C01.9 re-evaluated)") as ob:
+        from . import c01
+        sub = cx.__class__("C20", prog, cx.tier, cx.config, cx.tree, repo=cx.repo)
+        c01.run(sub)
+        w = [x for x in sub.obs if x.oid == "C01.9"]
+        ob.count(sum(x.evals for x in w))
+        bad = [v for x in w for v in x.violations if "/inbound/" in v.key or "accessor" in v.key]
+        ob.require(len(w) == 1 and not bad, "sender/attached-before-dispatch", "requests can reach the authorization layer without (or with another than) the authenticated sender: " + "; ".join(str(v.msg) for v in bad)[:300],
+                   "anemo::network::request_handler::BiStreamRequestHandler::do_handle")
+
